@@ -38,7 +38,7 @@ def judge(p):
         return "surface:raises:%s" % r[1]
     rlat, rlon, tlat, tlon, cls = exp[:5]
     if r[1] is None:
-        return "surface:None_in_same_NL_band:%s" % cls
+        return None if cls.startswith("cross-band:") else "surface:None_in_same_NL_band:%s" % cls
     try:
         lat, lon = r[1]
         dlat, dlon = abs(lat - rlat), C.lon_diff(lon, rlon)
@@ -86,9 +86,10 @@ def w_lats(arg):
                 if e0["rlat"] >= 90 or e1["rlat"] >= 90:
                     acc.c["skipped_north_pole_not_representable"] += 1
                     continue
-                if C.NL(e0["rlat"]) != C.NL(e1["rlat"]):
+                crossband = C.NL(e0["rlat"]) != C.NL(e1["rlat"])
+                if crossband:
+                    # the decoder may return None; if it does return a position it must still be the newer frame's
                     acc.c["different_NL_bands"] += 1
-                    continue
                 tc = 5 + k % 4
                 m0 = F.es(C.me_surface(tc, k % 128, k % 2, (k * 5) % 128, 0, e0["yz"], e0["xz"], t=k % 2), 0x406B90 ^ (k % 5), ca_for(17 + k % 2, k // 2), 17 + k % 2)
                 # the two frames of a pair may come through different links: a DF17 squitter and a DF18 rebroadcast (ADS-R /
@@ -113,7 +114,7 @@ def w_lats(arg):
                         kt += 1
                         t0, t1 = ts_pair(kt, bool(newer_even))   # representation rotates: ints, 0, floats, datetimes ...
                         exp = [float(e["rlat"]), float(e["rlon"]), float(e["dlat"]) / 131072, float(e["dlon"]) / 131072,
-                               cls_of(e["rlat"], S.wrap180(e["rlon"]), latr, lonr)]
+                               ("cross-band:" if crossband else "") + cls_of(e["rlat"], S.wrap180(e["rlon"]), latr, lonr)]
                         if newer_even is None:
                             # same position, same timestamp: either frame's carried position is acceptable
                             t0 = t1 = 7
